@@ -43,7 +43,8 @@ RULE = ('correspondence ok_*: f_ok (model) vs panic / no panic (implementation, 
         'again on the fixed_point build (p_fixed_point lines).')
 ASSUMPTIONS = ['display scale as stated in each theorem (ds_* / edge_* predicates of coq/Model/Overflow.v); outside it f_ok may be false '
                '(and the code then panics with overflow checks: the correspondence suites exercise exactly that)',
-               'C08_miter_total assumes the join intersection point within +-2^30 (not derived from the edge lines)']
+               'the join theorems (C08_join_edges_total ...) take the four edge lines of the thick segments as inputs, within +-1280 '
+               '(= display scale + twice the maximal stroke width); that Line::extents stays in this range is not proved']
 TRUSTED = ['translate/gen_arith.py (tokeniser-level skeletons; operands are not compared, only the shape of the arithmetic)',
            'the mapping function -> predicate in translate/record_skeletons.py / the `recorded` table is maintained by hand',
            'modelled, not verified: az::SaturatingAs, i32 `/` as Z.quot, u32 and usize `/` as Z.div, `as` between equal-width integers as wrap']
@@ -51,7 +52,6 @@ PARTIAL = [
     'unmodelled functions of the covered files (explicit list unmodelled_fns in coq/Model/Overflow.v): Line::extents, '
     'OriginLinearEquation::with_angle (float / fixed trigonometry), Triangle::is_collapsed, Triangle::sorted_clockwise and the From/TryFrom '
     'conversions (constant indices into fixed arrays), Index for Point/Size, Triangle::from_slice, ImageRaw::new_const (documented panics)',
-    'C08_miter_total: full statement "the miter point computed from display-scale edge lines lies within +-2^30" is OPEN (assumed)',
     'thick lines and joins: per-step theorems with inductive invariants (C08_next_all_total, C08_previous_all_total, '
     'C08_increase_error_total, C08_decrease_error_total, C08_parallels_next_total) but no theorem for the whole ParallelsIterator / '
     'ThickPoints / LineJoin::from_points loop (Line::extents unmodelled); covered by p_total',
